@@ -6,10 +6,11 @@ EXTENDS WorkQueue, Json
 VARIABLE lastAct
 NoFaults == {{}}
 AnyOneFault == {{}} \cup {{i} : i \in Items}
+AnyFaults == SUBSET Items
 SimInit == Init /\ lastAct = <<"Init", 0>>
 A(act, name, who) == act /\ lastAct' = <<name, who>>
 SimNext == \/ A(PPut, "PPut", 0) \/ A(PPutFull, "PPutFull", 0) \/ A(PClose, "PClose", 0)
-           \/ A(PJoinThread, "PJoinThread", 0) \/ A(PSetEv, "PSetEv", 0) \/ A(PJoinW, "PJoinW", 0) \/ A(Flush, "Flush", 0)
+           \/ A(PJoinThread, "PJoinThread", 0) \/ A(PJoinThreadPoll, "PJoinThreadPoll", 0) \/ A(PSetEv, "PSetEv", 0) \/ A(PJoinW, "PJoinW", 0) \/ A(Flush, "Flush", 0)
            \/ \E w \in Workers : \/ A(WSample(w), "WSample", w) \/ A(WAcquire(w), "WAcquire", w)
                                  \/ A(WLockTimeout(w), "WLockTimeout", w) \/ A(WRecv(w), "WRecv", w)
                                  \/ A(WPollTimeout(w), "WPollTimeout", w) \/ A(WCheckDone(w), "WCheckDone", w)
